@@ -17,26 +17,30 @@ def run(c):
                          P.consts(P.S2x3, MaxSize=3, MaxRead=3),
                          P.consts(P.S2x3, MaxSize=1)], timeout=240)
         P.self_test_model(c)
+        P.eoi_design(c)
         n = 200
         gens = [P.consts(P.S2x3, MaxKFires=2, MaxOFires=3, MaxLen=120),
                 P.consts(P.S2x3, MaxSize=1, MaxKFires=2, MaxOFires=3, MaxLen=140),
                 P.consts(P.S2x3, MaxSize=3, MaxRead=3, MaxKFires=2, MaxOFires=3, WithEOI=True, MaxLen=120),
                 P.consts(P.S3x4, MaxKFires=3, MaxOFires=4, MaxBarriers=2, MaxRead=3, MaxLen=200),
                 P.consts(P.S3x4b, MaxSize=3, MaxKFires=3, MaxOFires=4, MaxRead=3, MaxLen=200),
-                P.consts(P.S2x3, UseTimer=False, MaxLen=100)]
+                P.consts(P.S2x3, UseTimer=False, MaxLen=100),
+                P.consts(P.S2x3, UseTimer=False, WithEOI=True, MaxSize=3, MaxRead=3, MaxLen=100)]
         runs = 40
     else:
         P.exhaustive(c, [P.consts(P.S2x3, MaxSize=ms, MaxRead=min(ms + 1, 3), MaxTicks=1) for ms in (1, 2, 3)] +
-                     [P.consts(P.S2x3, MaxSize=2, MaxKFires=2, MaxOFires=2, WithEOI=True),
-                      P.consts(P.S2x2, MaxTicks=1, MaxBarriers=2, WithEOI=True)], timeout=1500)
+                     [P.consts(P.S2x2, MaxTicks=1, MaxBarriers=2, WithEOI=True)], timeout=1500)
         P.self_test_model(c)
-        for sh, ms in ((P.S3x4, 2), (P.S3x4b, 3), (P.S3x4, 1)):
-            P.simulate(c, P.consts(sh, MaxSize=ms, MaxKFires=3, MaxOFires=4, MaxBarriers=2, MaxTicks=2, MaxRead=3, MaxLen=400), 6000, 400, 150)
-        n = 600
+        P.eoi_design(c)
+        for sh, ms in ((P.S3x4, 2), (P.S3x4b, 3)):
+            P.simulate(c, P.consts(sh, MaxSize=ms, MaxKFires=3, MaxOFires=4, MaxBarriers=2, MaxTicks=2, MaxRead=3, MaxLen=400), 4000, 400, 90)
+        n = 400
         gens = [P.consts(sh, MaxSize=ms, MaxRead=3, MaxKFires=3, MaxOFires=4, MaxBarriers=nb, WithEOI=eoi, MaxLen=ml)
-                for sh, ml in ((P.S2x3, 140), (P.S3x4, 220), (P.S3x4b, 220)) for ms in (1, 2, 3) for nb, eoi in ((1, False), (2, True))]
+                for sh, ml, ms, nb, eoi in ((P.S2x3, 140, 1, 1, False), (P.S2x3, 140, 2, 2, True), (P.S2x3, 140, 3, 1, True),
+                                            (P.S3x4, 220, 1, 2, True), (P.S3x4, 220, 2, 1, False), (P.S3x4, 220, 3, 2, False),
+                                            (P.S3x4b, 220, 2, 2, True), (P.S3x4b, 220, 3, 1, False))]
         gens.append(P.consts(P.S2x3, UseTimer=False, MaxLen=100))
-        gens.append(P.consts(P.S3x4, UseTimer=False, MaxSize=3, MaxLen=160))
+        gens.append(P.consts(P.S3x4, UseTimer=False, WithEOI=True, MaxSize=3, MaxLen=160))
         runs = 300
     for i, cc in enumerate(gens):
         P.replay(c, cc, n, s * 1000 + i, restart=False)
